@@ -1,6 +1,6 @@
 (* C02 — property theorems (statements in full; proofs in Proofs*.v). *)
 From Coq Require Import List NArith Bool.
-From LTV.C02 Require Import Model ProofsA ProofsB ProofsC Proofs ProofsD ProofsE ProofsF ProofsG.
+From LTV.C02 Require Import Model ProofsA ProofsB ProofsC Proofs ProofsD ProofsE ProofsF ProofsG ProofsH.
 Import ListNotations.
 Local Open Scope N_scope.
 
@@ -276,3 +276,35 @@ Theorem hash_piece_exact : forall cs lay s idx steps s' fed pos,
       nth (N.to_nat k) bs 0 = if f_pad f then 0 else raw (s_store s) i o.
 Proof. exact ProofsG.hash_piece_exact. Qed.
 Print Assumptions hash_piece_exact.
+
+(* the ChunkIterator loop of PeerConnectionBase::down_chunk / up_chunk over a block [first,last) of
+   piece idx, for EVERY schedule of short transfers (steps): *)
+(* download: the bytes received so far land at stream positions idx*cs+first, +1, ... in order, never
+   beyond last; no other file byte changes; Chunk::preload accepts the range *)
+Theorem xfer_down_frame : forall cs lay s idx first last steps data s' pre r,
+  let c := mk_cfg cs lay in
+  length (s_store s) = length (c_files c) -> chunk_index_size c idx < two32 ->
+  first < last -> last <= chunk_index_size c idx -> last - first <= N.of_nat (length data) ->
+  step c s (OpXfer idx true first last steps data) = (s', OutXfer pre r) ->
+  exists wins total, r = Some (wins, total, []) /\ pre = true /\ total <= last - first /\
+    length (s_store s') = length (c_files c) /\
+    forall i f o, nth_error (c_files c) i = Some f -> o < f_size f ->
+      raw (s_store s') i o =
+        if negb (f_pad f) && (idx * cs + first <=? f_off f + o) && (f_off f + o <? idx * cs + first + total)
+        then nth (N.to_nat (f_off f + o - (idx * cs + first))) data 0
+        else raw (s_store s) i o.
+Proof. exact ProofsH.xfer_down_frame. Qed.
+Print Assumptions xfer_down_frame.
+
+(* upload: the bytes handed to the stream are the located file bytes of the block, in order *)
+Theorem xfer_up_exact : forall cs lay s idx first last steps s' pre wins total sent,
+  let c := mk_cfg cs lay in
+  length (s_store s) = length (c_files c) -> chunk_index_size c idx < two32 ->
+  first < last -> last <= chunk_index_size c idx ->
+  step c s (OpXfer idx false first last steps []) = (s', OutXfer pre (Some (wins, total, sent))) ->
+  pre = true /\ total <= last - first /\ length sent = N.to_nat total /\
+  forall k i f o, k < total -> located (c_files c) (idx * cs + first + k) i o ->
+    nth_error (c_files c) i = Some f ->
+    nth (N.to_nat k) sent 0 = if f_pad f then 0 else raw (s_store s) i o.
+Proof. exact ProofsH.xfer_up_exact. Qed.
+Print Assumptions xfer_up_exact.
